@@ -3766,6 +3766,8 @@ class DecVarSub(VarSub):
                               'before the model is formulated.')
 
         self.fixed = False
+        if self.dvars.rand_adapt is not None:
+            self.rand_adapt = self.dvars.rand_adapt
         if self.rand_adapt is None:
             sup_model = self.dro_model.sup_model
             self.rand_adapt = np.zeros((self.size, sup_model.vars[-1].last),
